@@ -1359,6 +1359,23 @@ protected:
         return;
       }
 
+      // RFC 9112 §6.3 / RFC 9110 §15.3.5, §15.4.5: a 204 or 304 response ends at
+      // the empty line after the header fields — it cannot carry content, for ANY
+      // request method. A handler may still have left a body in `res` (it built
+      // the representation and then downgraded to 304; it answered 204 after
+      // set_content; or it only set the status and inherited the pre-filled
+      // default body). Sent as is, those bytes would sit in front of the next
+      // response on a persistent connection. Drop the body, and the
+      // Content-Length that described it (a 204 never carries one).
+      if (res.status == 204 || res.status == 304)
+      {
+        if (!res.body.empty() || res.status == 204)
+        {
+          res.headers.erase("Content-Length");
+        }
+        res.body.clear();
+      }
+
       // RFC 9110 §9.3.2: a HEAD response MUST carry no body on the wire, on
       // EVERY terminal path (MATCHED_AS_HEAD, 405, NO_ROUTE/404/default). The
       // body is computed then dropped; Content-Length (reflecting the body a GET
